@@ -210,7 +210,9 @@ impl Budget {
         }
         static CAP_PAGES: std::sync::OnceLock<u64> = std::sync::OnceLock::new();
         let cap = *CAP_PAGES.get_or_init(|| {
-            let gb: f64 = std::env::var("LSVERIF_RSS_GB").ok().and_then(|s| s.parse().ok()).unwrap_or(40.0);
+            // default: 40 GiB or 55 % of the machine's memory, whichever is smaller
+            let total_gb = std::fs::read_to_string("/proc/meminfo").ok().and_then(|m| m.lines().find(|l| l.starts_with("MemTotal:")).and_then(|l| l.split_whitespace().nth(1).and_then(|x| x.parse::<f64>().ok()))).map(|kb| kb / (1u64 << 20) as f64).unwrap_or(64.0);
+            let gb: f64 = std::env::var("LSVERIF_RSS_GB").ok().and_then(|s| s.parse().ok()).unwrap_or((total_gb * 0.55).min(40.0));
             (gb * (1u64 << 30) as f64 / 4096.0) as u64
         });
         match std::fs::read_to_string("/proc/self/statm") {
